@@ -35,3 +35,54 @@ def strip_axioms(src, out):
     i = z3.FreshInt("strip_i")
     return z3.And(0 <= i, i + z3.Length(out) <= z3.Length(src), out == z3.SubString(src, i, z3.Length(out)),
                   z3.Not(z3.PrefixOf(z3.StringVal(" "), out)), z3.Not(z3.SuffixOf(z3.StringVal(" "), out)))
+
+
+def regex_to_z3(pattern):
+    """translate a (simple) Python regex to a z3 regex via the interpreter's own parser; unsupported constructs raise (=> out of subset)"""
+    import re._parser as sre  # python >= 3.11
+    import re._constants as C
+
+    def cls_item(it):
+        op, av = it
+        if op == C.LITERAL:
+            return z3.Re(z3.StringVal(chr(av)))
+        if op == C.RANGE:
+            return z3.Range(z3.StringVal(chr(av[0])), z3.StringVal(chr(av[1])))
+        raise NotImplementedError(f"regex class item {op}")
+
+    def seq(items):
+        parts = [one(i) for i in items]
+        if not parts:
+            return z3.Re(z3.StringVal(""))
+        r = parts[0]
+        for x in parts[1:]:
+            r = z3.Concat(r, x)
+        return r
+
+    def one(it):
+        op, av = it
+        if op == C.LITERAL:
+            return z3.Re(z3.StringVal(chr(av)))
+        if op == C.IN:
+            if av and av[0][0] == C.NEGATE:
+                raise NotImplementedError("negated class")
+            parts = [cls_item(x) for x in av]
+            return z3.Union(*parts) if len(parts) > 1 else parts[0]
+        if op in (C.MAX_REPEAT, C.MIN_REPEAT):
+            lo, hi, sub = av
+            r = seq(list(sub))
+            if lo == 0 and hi == C.MAXREPEAT:
+                return z3.Star(r)
+            if lo == 1 and hi == C.MAXREPEAT:
+                return z3.Plus(r)
+            if lo == 0 and hi == 1:
+                return z3.Option(r)
+            raise NotImplementedError("bounded repeat")
+        if op == C.SUBPATTERN:
+            return seq(list(av[3]))
+        if op == C.BRANCH:
+            parts = [seq(list(b)) for b in av[1]]
+            return z3.Union(*parts)
+        raise NotImplementedError(f"regex op {op}")
+
+    return seq(list(sre.parse(pattern)))
